@@ -1043,3 +1043,976 @@ func ruleFieldWidth(p *Prog, r *RuleResult) {
 	}
 	r.floor(1, nsite, "header fields written with a run-time width")
 }
+
+// R-EMIT-EXACT ----------------------------------------------------------------------------------------------------
+
+func init() {
+	register("R-EMIT-EXACT", "the number of bits an encode task copies from its private bitstream into the shared stream (and announces in the block's length field) is exactly what that private bitstream reports as written: no rounding, padding or other arithmetic in between", false, ruleEmitExact)
+}
+
+// countLeaves: where an integer value comes from, looking through phis, conversions, min(), the running remainder
+// (x - chunk: only x) and local cells. Anything else is a leaf.
+func countLeaves(p *Prog, v ssa.Value) []ssa.Value {
+	var out []ssa.Value
+	seen := map[ssa.Value]bool{}
+	var walk func(v ssa.Value)
+	walk = func(v ssa.Value) {
+		if v == nil || seen[v] {
+			return
+		}
+		seen[v] = true
+		switch x := v.(type) {
+		case *ssa.Phi:
+			for _, e := range x.Edges {
+				walk(e)
+			}
+			return
+		case *ssa.Convert:
+			walk(x.X)
+			return
+		case *ssa.ChangeType:
+			walk(x.X)
+			return
+		case *ssa.BinOp:
+			if x.Op == token.SUB {
+				walk(x.X)
+				return
+			}
+		case *ssa.Call:
+			if b, ok := x.Call.Value.(*ssa.Builtin); ok && b.Name() == "min" {
+				for _, a := range x.Call.Args {
+					walk(a)
+				}
+				return
+			}
+			// a small same-package helper that computes the chunk size: its results
+			if h := x.Call.StaticCallee(); h != nil && h.Blocks != nil && h.Signature.Results().Len() == 1 && p.InModule(h) {
+				if o := calleeObj(&x.Call); o == nil || o.Name() != "Written" {
+					n := 0
+					for _, hb := range h.Blocks {
+						if ret, ok := hb.Instrs[len(hb.Instrs)-1].(*ssa.Return); ok {
+							for _, rv := range rvals(ret) {
+								walk(rv)
+								n++
+							}
+						}
+					}
+					if n > 0 {
+						return
+					}
+				}
+			}
+		case *ssa.UnOp:
+			if al, ok := x.X.(*ssa.Alloc); ok && x.Op == token.MUL {
+				n := 0
+				for _, ref := range *al.Referrers() {
+					if st, ok := ref.(*ssa.Store); ok && st.Addr == ssa.Value(al) {
+						walk(st.Val)
+						n++
+					}
+				}
+				if n > 0 {
+					return
+				}
+			}
+		case *ssa.Parameter:
+			// a helper's parameter: the arguments of its static call sites in the same package
+			if fn := x.Parent(); fn != nil && fn.Pkg != nil {
+				idx := -1
+				for k, q := range fn.Params {
+					if q == x {
+						idx = k
+					}
+				}
+				n := 0
+				for _, g := range callersInPkg(p, fn) {
+					eachInstr(g, func(j ssa.Instruction) {
+						if c := callOf(j); c != nil && !c.IsInvoke() && c.StaticCallee() == fn && idx >= 0 && idx < len(c.Args) {
+							walk(c.Args[idx])
+							n++
+						}
+					})
+				}
+				if n > 0 {
+					return
+				}
+			}
+		}
+		out = append(out, v)
+	}
+	walk(v)
+	return out
+}
+
+// callersInPkg: every function of fn's package (methods and closures included).
+func callersInPkg(p *Prog, fn *ssa.Function) []*ssa.Function {
+	var out []*ssa.Function
+	for _, g := range p.ModFns {
+		if FnPkg(g) == FnPkg(fn) && g.Blocks != nil {
+			out = append(out, g)
+		}
+	}
+	return out
+}
+
+func ruleEmitExact(p *Prog, r *RuleResult) {
+	s := resolveSide(p, "Writer")
+	fname := p.FnName(s.fn)
+	nsite := 0
+	var k keyer
+	isShared := func(c *ssa.CallCommon) bool {
+		if c.IsInvoke() {
+			return fieldVarOfLoad(c.Value) == s.stream
+		}
+		return len(c.Args) > 0 && fieldVarOfLoad(c.Args[0]) == s.stream
+	}
+	check := func(i ssa.Instruction, id, what string, v ssa.Value) {
+		nsite++
+		key := k.key(fname, id)
+		nWritten := 0
+		for _, lf := range countLeaves(p, v) {
+			if _, ok := lf.(*ssa.Const); ok {
+				continue
+			}
+			if c, ok := lf.(*ssa.Call); ok {
+				if o := calleeObj(&c.Call); o != nil && o.Name() == "Written" && !isShared(&c.Call) {
+					nWritten++
+					continue
+				}
+			}
+			pos := p.IPos(i)
+			if li, ok := lf.(ssa.Instruction); ok {
+				pos = p.IPos(li)
+			}
+			r.fail(key, pos, fmt.Sprintf("the bit count of %s is not the count reported by the task's private bitstream but a value computed from it (%s): bits beyond what the entropy coder wrote come from whatever the reused slot buffer held – which earlier block that was depends on the job count – or, if the count is smaller, the block is cut short", what, strings.TrimSpace(lf.String())))
+			return
+		}
+		if nWritten == 0 {
+			r.note("%s: no Written() call of a private bitstream among the origins of the count (NOT DECIDED)", key)
+			return
+		}
+		r.ok(key+": the count is the private bitstream's Written() (through min / running remainder only)", p.IPos(i))
+	}
+	scan := func(g *ssa.Function) {
+		eachInstr(g, func(i ssa.Instruction) {
+			c := callOf(i)
+			if c == nil || !isShared(c) {
+				return
+			}
+			o := calleeObj(c)
+			if o == nil {
+				return
+			}
+			args := c.Args
+			if !c.IsInvoke() {
+				args = args[1:]
+			}
+			switch o.Name() {
+			case "WriteArray":
+				if len(args) == 2 {
+					check(i, "payload-copy", "the payload copy (WriteArray on the shared stream)", args[1])
+				}
+			case "WriteBits":
+				// the length field: the one WriteBits on the shared stream whose width is not a constant
+				if len(args) == 2 {
+					if _, isConst := args[1].(*ssa.Const); !isConst {
+						check(i, "length-field", "the block length field (WriteBits with a computed width)", args[0])
+					}
+				}
+			}
+		})
+	}
+	scan(s.fn)
+	// the emission may have been extracted into same-package helpers of the task function: their parameters are
+	// followed to the arguments of the calls in the task function
+	for _, h := range p.helperClosure(s.fn) {
+		if h.Parent() == nil && FnPkg(h) == FnPkg(s.fn) {
+			scan(h)
+		}
+	}
+	r.floor(2, nsite, "emission sites on the shared stream (length field, payload copy)")
+}
+
+// R-APP-CTX -------------------------------------------------------------------------------------------------------
+
+func init() {
+	register("R-APP-CTX", "the context map given to each per-file task of the command-line tool carries every option the tool put into its shared context map (copied wholesale, or key by key): an option such as the block range cannot be lost for directory inputs", false, ruleAppCtx)
+}
+
+func ruleAppCtx(p *Prog, r *RuleResult) {
+	ntask := 0
+	var k keyer
+	for _, f := range p.ModFns {
+		if p.Rel(f) != "app" {
+			continue
+		}
+		// constant keys stored into each map value of the function, and whole-map copies (range m { v[k] = x })
+		keys := map[ssa.Value]map[string]bool{}
+		copies := map[ssa.Value]map[ssa.Value]bool{}
+		eachInstr(f, func(i ssa.Instruction) {
+			mu, ok := i.(*ssa.MapUpdate)
+			if !ok {
+				return
+			}
+			if key, ok := ctxKey(mu.Map, mu.Key); ok {
+				if keys[mu.Map] == nil {
+					keys[mu.Map] = map[string]bool{}
+				}
+				keys[mu.Map][key] = true
+				return
+			}
+			if ex, ok := mu.Key.(*ssa.Extract); ok {
+				if nx, ok := ex.Tuple.(*ssa.Next); ok {
+					if rg, ok := nx.Iter.(*ssa.Range); ok {
+						if copies[mu.Map] == nil {
+							copies[mu.Map] = map[ssa.Value]bool{}
+						}
+						copies[mu.Map][rg.X] = true
+					}
+				}
+			}
+		})
+		// every construction of a task value (a struct of package app that has a call/run method) with a map field
+		eachInstr(f, func(i ssa.Instruction) {
+			sto, ok := i.(*ssa.Store)
+			if !ok {
+				return
+			}
+			fa, ok := sto.Addr.(*ssa.FieldAddr)
+			if !ok {
+				return
+			}
+			if _, fresh := fa.X.(*ssa.Alloc); !fresh {
+				return
+			}
+			tn := namedOf(fa.X.Type())
+			if tn == nil || tn.Obj().Pkg() == nil || tn.Obj().Pkg().Path() != p.ModPath+"/app" {
+				return
+			}
+			st, ok := tn.Underlying().(*types.Struct)
+			if !ok {
+				return
+			}
+			if _, isMap := st.Field(fa.Field).Type().Underlying().(*types.Map); !isMap {
+				return
+			}
+			isTask := false
+			for _, mn := range []string{"call", "Call", "run", "Run"} {
+				if p.MethodOpt("app", tn.Obj().Name(), mn) != nil {
+					isTask = true
+				}
+			}
+			if !isTask {
+				return
+			}
+			ntask++
+			key := k.key(p.FnName(f), "task-ctx."+tn.Obj().Name())
+			v := sto.Val
+			mk, fresh := v.(*ssa.MakeMap)
+			if !fresh {
+				r.ok(key+": the task is given an existing option map", p.IPos(sto))
+				return
+			}
+			sameIteration := func(b *ssa.BasicBlock) bool {
+				return b == mk.Block() || (reach(b, nil, nil)[mk.Block()] && reach(mk.Block(), nil, nil)[b] && inCycle(b))
+			}
+			var missing []string
+			nshared, undecided := 0, false
+			for m, ks := range keys {
+				if m == v || !types.Identical(m.Type(), v.Type()) {
+					continue
+				}
+				if mi, ok := m.(ssa.Instruction); ok && (sameIteration(mi.Block()) || !mi.Block().Dominates(mk.Block())) {
+					continue // a map built in the same iteration, or one that does not exist yet when this one is made: not the shared options
+				}
+				nshared++
+				if copies[v][m] {
+					continue
+				}
+				for kk := range ks {
+					if !keys[v][kk] {
+						missing = append(missing, kk)
+					}
+				}
+			}
+			for _, par := range f.Params {
+				if types.Identical(par.Type(), v.Type()) && keys[par] == nil {
+					nshared++
+					if !copies[v][par] {
+						undecided = true
+					}
+				}
+			}
+			sort.Strings(missing)
+			switch {
+			case len(missing) > 0:
+				r.fail(key, p.IPos(sto), fmt.Sprintf("the context map given to the per-file tasks is neither a copy of the tool's option map nor does it set the keys %v: for a directory (several files) these options silently do not apply – e.g. a block range is ignored and every file is processed in full, with exit status 0", missing))
+			case undecided:
+				r.note("%s at %s: the task context is built from a map parameter without copying it wholesale (NOT DECIDED)", key, p.IPos(sto))
+			case nshared == 0:
+				r.ok(key+": no shared option map in this function", p.IPos(sto))
+			default:
+				r.ok(key+": the task context is a copy of the shared option map (or sets each of its keys)", p.IPos(sto))
+			}
+		})
+	}
+	r.floor(2, ntask, "per-file task contexts")
+}
+
+// R-NAME-NORM -----------------------------------------------------------------------------------------------------
+
+func init() {
+	register("R-NAME-NORM", "the name->type lookups accept no spelling that the variant selectors do not recognise: beyond case folding, every normalisation the lookups apply to a codec name (trimming, replacing) is applied at every place that selects a codec variant from the context name", false, ruleNameNorm)
+}
+
+// stringOpsBack walks from v back towards where the string comes from, collecting the strings.* functions applied on
+// the way; reports whether the origin is a codec name of the context (ctx["entropy"/"transform"]) or, when
+// stopAtParam, a parameter.
+func stringOpsBack(p *Prog, v ssa.Value, ops map[string]bool, helpers map[*ssa.Function]int, stopAtParam bool, d int) string {
+	if d > 12 || v == nil {
+		return ""
+	}
+	switch x := v.(type) {
+	case *ssa.Call:
+		if o := calleeObj(&x.Call); o != nil && o.Pkg() != nil && o.Pkg().Path() == "strings" && len(x.Call.Args) > 0 {
+			ops[o.Name()] = true
+			return stringOpsBack(p, x.Call.Args[0], ops, helpers, stopAtParam, d+1)
+		}
+		if callee := x.Call.StaticCallee(); callee != nil {
+			if idx, ok := helpers[callee]; ok && idx < len(x.Call.Args) {
+				if kc, ok := x.Call.Args[idx].(*ssa.Const); ok && kc.Value != nil {
+					if k := constString(kc); k == "entropy" || k == "transform" {
+						return k
+					}
+					return ""
+				}
+			}
+		}
+	case *ssa.TypeAssert:
+		return stringOpsBack(p, x.X, ops, helpers, stopAtParam, d+1)
+	case *ssa.Extract:
+		return stringOpsBack(p, x.Tuple, ops, helpers, stopAtParam, d+1)
+	case *ssa.Lookup:
+		if k, ok := ctxKey(x.X, x.Index); ok && (k == "entropy" || k == "transform") {
+			return k
+		}
+	case *ssa.Phi:
+		for _, e := range x.Edges {
+			if k := stringOpsBack(p, e, ops, helpers, stopAtParam, d+1); k != "" {
+				return k
+			}
+		}
+	case *ssa.UnOp:
+		if al, ok := x.X.(*ssa.Alloc); ok && x.Op == token.MUL {
+			for _, ref := range *al.Referrers() {
+				if st, ok := ref.(*ssa.Store); ok && st.Addr == ssa.Value(al) {
+					if k := stringOpsBack(p, st.Val, ops, helpers, stopAtParam, d+1); k != "" {
+						return k
+					}
+				}
+			}
+		}
+	case *ssa.Parameter:
+		if stopAtParam {
+			return "param"
+		}
+	}
+	return ""
+}
+
+func ruleNameNorm(p *Prog, r *RuleResult) {
+	caseOnly := map[string]bool{"ToUpper": true, "ToLower": true, "EqualFold": true}
+	helpers := ctxHelpersDeep(p)
+	// what the lookups apply between their parameter and the table
+	extra := map[string]map[string]string{"transform": {}, "entropy": {}} // kind -> normaliser -> lookup that applies it
+	nlook := 0
+	for _, kind := range []string{"transform", "entropy"} {
+		ct := loadTables(p, kind)
+		var idx ssa.Value
+		if t := extractSwitch(ct.n2cFn); t != nil && len(t.cases) >= 5 {
+			idx = t.tag
+		} else if mt := extractMapTable(p, ct.n2cFn); mt != nil {
+			idx = mt.index
+		}
+		if idx == nil {
+			continue
+		}
+		nlook++
+		ops := map[string]bool{}
+		stringOpsBack(p, idx, ops, helpers, true, 0)
+		for o := range ops {
+			if !caseOnly[o] {
+				extra[kind][o] = p.FnName(ct.n2cFn)
+			}
+		}
+	}
+	if nlook == 0 {
+		undecided("R-NAME-NORM: no name->type lookup resolved")
+	}
+	// the selectors: comparisons of a context codec name with a string constant
+	nsel := 0
+	var k keyer
+	for _, f := range p.ModFns {
+		rel := p.Rel(f)
+		if rel == "benchmark" || rel == "app" || rel == "?" {
+			continue
+		}
+		eachInstr(f, func(i ssa.Instruction) {
+			var operand ssa.Value
+			ops := map[string]bool{}
+			switch x := i.(type) {
+			case *ssa.BinOp:
+				if x.Op != token.EQL && x.Op != token.NEQ {
+					return
+				}
+				if c, ok := x.Y.(*ssa.Const); ok && c.Value != nil && isStringType(c.Type()) {
+					operand = x.X
+				} else if c, ok := x.X.(*ssa.Const); ok && c.Value != nil && isStringType(c.Type()) {
+					operand = x.Y
+				}
+			case *ssa.Call:
+				o := calleeObj(&x.Call)
+				if o == nil || o.Pkg() == nil || o.Pkg().Path() != "strings" || len(x.Call.Args) != 2 {
+					return
+				}
+				switch o.Name() {
+				case "EqualFold", "Contains", "HasPrefix", "HasSuffix", "Index", "Compare":
+				default:
+					return
+				}
+				if _, ok := x.Call.Args[1].(*ssa.Const); ok {
+					operand = x.Call.Args[0]
+				} else if _, ok := x.Call.Args[0].(*ssa.Const); ok {
+					operand = x.Call.Args[1]
+				}
+				ops[o.Name()] = true
+			}
+			if operand == nil {
+				return
+			}
+			kind := stringOpsBack(p, operand, ops, helpers, false, 0)
+			if kind == "" {
+				return
+			}
+			nsel++
+			key := k.key(p.FnName(f), "selector")
+			var missing []string
+			for _, e := range sortedKeys(extra[kind]) {
+				if !ops[e] {
+					missing = append(missing, "strings."+e+" (applied by "+extra[kind][e]+")")
+				}
+			}
+			if len(missing) > 0 {
+				r.fail(key, p.IPos(i), fmt.Sprintf("a codec variant is selected from the context name without %s: a spelling that the name->type lookup now accepts (the header gets its type) is not recognised here, so the encoder uses another variant than the header announces and the stream does not decode", strings.Join(missing, ", ")))
+			} else {
+				r.ok(key+": the selector normalises the name at least as much as the lookups", p.IPos(i))
+			}
+		})
+	}
+	r.floor(3, nsel, "variant selectors on context codec names")
+}
+
+func isStringType(t types.Type) bool {
+	b, ok := t.Underlying().(*types.Basic)
+	return ok && b.Info()&types.IsString != 0
+}
+
+// R-HDR-MIRROR ----------------------------------------------------------------------------------------------------
+
+func init() {
+	register("R-HDR-MIRROR", "every field of the Reader that the header parser fills from the stream and that the read path uses is also filled on the headerless path (sibling agreement of the two initialisations)", false, ruleHdrMirror)
+}
+
+func ruleHdrMirror(p *Prog, r *RuleResult) {
+	rh := p.Method("io", "Reader", "readHeader")
+	rt := namedOf(rh.Signature.Recv().Type())
+	// non-constant stores to fields of the Reader
+	storesOf := func(fs []*ssa.Function) map[*types.Var]ssa.Instruction {
+		out := map[*types.Var]ssa.Instruction{}
+		for _, f := range fs {
+			eachInstr(f, func(i ssa.Instruction) {
+				st, ok := i.(*ssa.Store)
+				if !ok {
+					return
+				}
+				fa, ok := st.Addr.(*ssa.FieldAddr)
+				if !ok || namedOf(fa.X.Type()) != rt {
+					return
+				}
+				if _, isConst := st.Val.(*ssa.Const); isConst {
+					return
+				}
+				if fv := fieldVarOfAddr(fa); fv != nil {
+					if _, seen := out[fv]; !seen {
+						out[fv] = i
+					}
+				}
+			})
+		}
+		return out
+	}
+	hdrFns := append([]*ssa.Function{rh}, p.helperClosure(rh)...)
+	inHdr := map[*ssa.Function]bool{}
+	for _, f := range hdrFns {
+		inHdr[f] = true
+	}
+	hdr := storesOf(hdrFns)
+	// the sibling initialisation: functions of the package outside the header parser's closure that fill at least
+	// two of those fields with non-constant values
+	var sibs []*ssa.Function
+	for _, f := range p.ModFns {
+		if p.Rel(f) != "io" || inHdr[f] || f.Blocks == nil {
+			continue
+		}
+		n := 0
+		for fv := range storesOf([]*ssa.Function{f}) {
+			if _, ok := hdr[fv]; ok {
+				n++
+			}
+		}
+		if n >= 2 {
+			sibs = append(sibs, f)
+		}
+	}
+	if len(sibs) == 0 {
+		undecided("R-HDR-MIRROR: no headerless initialisation found (no function outside readHeader fills two of the fields it fills)")
+	}
+	var sibFns []*ssa.Function
+	seen := map[*ssa.Function]bool{}
+	for _, f := range sibs {
+		for _, g := range append([]*ssa.Function{f}, p.helperClosure(f)...) {
+			if !seen[g] && g != rh {
+				seen[g] = true
+				sibFns = append(sibFns, g) // helpers shared with the header parser count for both
+			}
+		}
+	}
+	sib := storesOf(sibFns)
+	// fields the read path looks at
+	s := resolveSide(p, "Reader")
+	roots := []*ssa.Function{p.Method("io", "Reader", "Read"), s.entry, s.parent}
+	used := map[*types.Var]bool{}
+	seenU := map[*ssa.Function]bool{}
+	for _, rt0 := range roots {
+		for _, g := range append([]*ssa.Function{rt0}, p.helperClosure(rt0)...) {
+			if seenU[g] || inHdr[g] {
+				continue
+			}
+			seenU[g] = true
+			eachInstr(g, func(i ssa.Instruction) {
+				if u, ok := i.(*ssa.UnOp); ok && u.Op == token.MUL {
+					if fa, ok := u.X.(*ssa.FieldAddr); ok && namedOf(fa.X.Type()) == rt {
+						if fv := fieldVarOfAddr(fa); fv != nil {
+							used[fv] = true
+						}
+					}
+				}
+			})
+		}
+	}
+	n := 0
+	var names []string
+	byName := map[string]*types.Var{}
+	for fv := range hdr {
+		names = append(names, fv.Name())
+		byName[fv.Name()] = fv
+	}
+	sort.Strings(names)
+	for _, nm := range names {
+		fv := byName[nm]
+		if !used[fv] {
+			continue
+		}
+		n++
+		if _, ok := sib[fv]; ok {
+			r.ok(fmt.Sprintf("Reader.%s is filled by the header parser and by the headerless initialisation (%s)", nm, p.FnName(sibs[0])), p.IPos(hdr[fv]))
+		} else {
+			r.fail("Reader."+nm+"#headerless", p.IPos(hdr[fv]), fmt.Sprintf("field %s of the Reader is filled from the header by %s and used by the read path, but the headerless initialisation (%s) never gives it a value: a headerless stream is read with the zero value – Read cannot deliver the decoded data (it spins or returns nothing) although the same configuration works with a header", nm, p.FnName(rh), p.FnName(sibs[0])))
+		}
+	}
+	r.floor(3, n, "header-filled fields used by the read path")
+}
+
+// R-CHUNK-LEN -----------------------------------------------------------------------------------------------------
+
+func init() {
+	register("R-CHUNK-LEN", "where an entropy encoder and its decoder derive the chunk length from the block length alone (never transmitted), both use the same expressions", false, ruleChunkLen)
+}
+
+// lenExprs: the expressions over len(block) and constants (at least one operator) that reach a slice bound of the
+// block parameter of f, as canonical strings.
+func lenExprs(f *ssa.Function) map[string]bool {
+	out := map[string]bool{}
+	if len(f.Params) < 2 {
+		return out
+	}
+	var block ssa.Value
+	for _, par := range f.Params[1:] {
+		if isByteSlice(par.Type()) {
+			block = par
+			break
+		}
+	}
+	if block == nil {
+		return out
+	}
+	isBlock := func(v ssa.Value) bool {
+		for d := 0; d < 4; d++ {
+			if v == block {
+				return true
+			}
+			sl, ok := v.(*ssa.Slice)
+			if !ok {
+				return false
+			}
+			v = sl.X
+		}
+		return false
+	}
+	// parameters of a same-package helper bound to the (pure) argument signatures of the call being followed
+	type binding struct {
+		sig string
+		op  bool
+	}
+	env := map[ssa.Value]binding{}
+	var pure func(v ssa.Value, d int) (string, bool, bool)
+	// returns signature, is-pure, has-operator
+	pure = func(v ssa.Value, d int) (string, bool, bool) {
+		if d > 10 {
+			return "", false, false
+		}
+		if b, ok := env[v]; ok {
+			return b.sig, true, b.op
+		}
+		switch x := v.(type) {
+		case *ssa.Const:
+			if x.Value == nil {
+				return "", false, false
+			}
+			return x.Value.ExactString(), true, false
+		case *ssa.Convert:
+			return pure(x.X, d+1)
+		case *ssa.Call:
+			if b, ok := x.Call.Value.(*ssa.Builtin); ok {
+				if b.Name() == "len" && len(x.Call.Args) == 1 && x.Call.Args[0] == block {
+					return "L", true, false
+				}
+				if b.Name() == "min" || b.Name() == "max" {
+					var parts []string
+					for _, a := range x.Call.Args {
+						s, ok, _ := pure(a, d+1)
+						if !ok {
+							return "", false, false
+						}
+						parts = append(parts, s)
+					}
+					sort.Strings(parts)
+					return b.Name() + "(" + strings.Join(parts, ",") + ")", true, true
+				}
+			}
+		case *ssa.BinOp:
+			switch x.Op {
+			case token.LSS, token.GTR, token.LEQ, token.GEQ, token.EQL, token.NEQ:
+				return "", false, false
+			}
+			a, oka, _ := pure(x.X, d+1)
+			b, okb, _ := pure(x.Y, d+1)
+			if oka && okb {
+				// one spelling for x>>k and x/2^k, x<<k and x*2^k (lengths are not negative)
+				op := x.Op.String()
+				if c, isC := constInt(x.Y); isC && c >= 0 && c < 62 {
+					switch x.Op {
+					case token.SHR:
+						op, b = "/", fmt.Sprint(int64(1)<<uint(c))
+					case token.SHL:
+						op, b = "*", fmt.Sprint(int64(1)<<uint(c))
+					}
+				}
+				return "(" + a + op + b + ")", true, true
+			}
+		}
+		return "", false, false
+	}
+	seen := map[ssa.Value]bool{}
+	var collect func(v ssa.Value, d int)
+	collect = func(v ssa.Value, d int) {
+		if v == nil || seen[v] || d > 14 {
+			return
+		}
+		seen[v] = true
+		if s, ok, op := pure(v, 0); ok {
+			if op && strings.Contains(s, "L") {
+				out[s] = true
+			}
+			return
+		}
+		switch x := v.(type) {
+		case *ssa.Phi:
+			for _, e := range x.Edges {
+				collect(e, d+1)
+			}
+		case *ssa.BinOp:
+			collect(x.X, d+1)
+			collect(x.Y, d+1)
+		case *ssa.Convert:
+			collect(x.X, d+1)
+		case *ssa.Call:
+			if b, ok := x.Call.Value.(*ssa.Builtin); ok && (b.Name() == "min" || b.Name() == "max") {
+				for _, a := range x.Call.Args {
+					collect(a, d+1)
+				}
+				return
+			}
+			// a same-package helper that computes the length: its results with the parameters bound to the arguments
+			if h := x.Call.StaticCallee(); h != nil && h.Blocks != nil && FnPkg(h) == FnPkg(f) && len(h.Params) == len(x.Call.Args) {
+				allPure := true
+				bound := map[ssa.Value]binding{}
+				for k, a := range x.Call.Args {
+					sg, ok, op := pure(a, 0)
+					if !ok {
+						allPure = false
+						break
+					}
+					bound[h.Params[k]] = binding{sg, op}
+				}
+				if allPure {
+					for k, v := range bound {
+						env[k] = v
+					}
+					for _, hb := range h.Blocks {
+						if ret, ok := hb.Instrs[len(hb.Instrs)-1].(*ssa.Return); ok {
+							for _, rv := range rvals(ret) {
+								collect(rv, d+1)
+							}
+						}
+					}
+				}
+			}
+		case *ssa.Extract:
+			collect(x.Tuple, d+1)
+		case *ssa.UnOp:
+			if al, ok := x.X.(*ssa.Alloc); ok && x.Op == token.MUL {
+				for _, ref := range *al.Referrers() {
+					if st, ok := ref.(*ssa.Store); ok && st.Addr == ssa.Value(al) {
+						collect(st.Val, d+1)
+					}
+				}
+			}
+		}
+	}
+	eachInstr(f, func(i ssa.Instruction) {
+		if sl, ok := i.(*ssa.Slice); ok && isBlock(sl.X) {
+			collect(sl.Low, 0)
+			collect(sl.High, 0)
+		}
+	})
+	return out
+}
+
+func ruleChunkLen(p *Prog, r *RuleResult) {
+	pk := p.Pkg("entropy")
+	if pk == nil {
+		undecided("anchor unresolved: package entropy")
+	}
+	var prefixes []string
+	for name := range pk.Members {
+		if strings.HasSuffix(name, "Encoder") {
+			pre := strings.TrimSuffix(name, "Encoder")
+			if _, ok := pk.Members[pre+"Decoder"]; ok {
+				prefixes = append(prefixes, pre)
+			}
+		}
+	}
+	sort.Strings(prefixes)
+	n, nexpr := 0, 0
+	for _, pre := range prefixes {
+		fe := p.MethodOpt("entropy", pre+"Encoder", "Write")
+		fd := p.MethodOpt("entropy", pre+"Decoder", "Read")
+		if fe == nil || fd == nil || fe.Blocks == nil || fd.Blocks == nil {
+			continue
+		}
+		n++
+		ee, ed := sortedKeys(lenExprs(fe)), sortedKeys(lenExprs(fd))
+		nexpr += len(ee) + len(ed)
+		if strings.Join(ee, " ") == strings.Join(ed, " ") {
+			r.ok(fmt.Sprintf("entropy.%s: encoder and decoder slice the block by the same functions of its length %v", pre, ee), p.Pos(fe.Pos()))
+		} else {
+			r.fail(fmt.Sprintf("entropy.%s#chunk-length", pre), p.Pos(fe.Pos()), fmt.Sprintf("the encoder cuts the block into chunks by %v of the block length L, the decoder by %v: the chunk length is not transmitted, each side recomputes it, so the decoder expects chunk headers and flushes at other positions than the encoder wrote them – the block decodes to wrong bytes after the first chunk boundary", ee, ed))
+		}
+	}
+	r.floor(3, n, "entropy encoder/decoder pairs")
+	r.floor(2, nexpr, "length-derived chunk expressions (both sides)")
+}
+
+// R-REFUSE-CLEAN --------------------------------------------------------------------------------------------------
+
+func init() {
+	register("R-REFUSE-CLEAN", "an operation that a closed bitstream refuses has not touched the bit counter before it finds out: on every path from the entry of a read/write operation to the test of the closed state no field that Written()/Read() is computed from is stored", false, ruleRefuseClean)
+}
+
+func ruleRefuseClean(p *Prog, r *RuleResult) {
+	nop := 0
+	for _, side := range []struct{ typ, accessor string; ops []string }{
+		{"DefaultOutputBitStream", "Written", []string{"WriteBit", "WriteBits", "WriteArray"}},
+		{"DefaultInputBitStream", "Read", []string{"ReadBit", "ReadBits", "ReadArray"}},
+	} {
+		acc := p.MethodOpt("bitstream", side.typ, side.accessor)
+		cl := p.MethodOpt("bitstream", side.typ, "Close")
+		if acc == nil || cl == nil {
+			undecided("anchor unresolved: bitstream.%s.%s / Close", side.typ, side.accessor)
+		}
+		recvT := namedOf(acc.Signature.Recv().Type())
+		// the fields the counter is computed from
+		gf := map[*types.Var]bool{}
+		for _, g := range append([]*ssa.Function{acc}, p.helperClosure(acc)...) {
+			eachInstr(g, func(i ssa.Instruction) {
+				if u, ok := i.(*ssa.UnOp); ok && u.Op == token.MUL {
+					if fa, ok := u.X.(*ssa.FieldAddr); ok && namedOf(fa.X.Type()) == recvT {
+						if fv := fieldVarOfAddr(fa); fv != nil && !isBool(fv.Type()) {
+							if _, isSlice := fv.Type().Underlying().(*types.Slice); !isSlice {
+								gf[fv] = true
+							}
+						}
+					}
+				}
+			})
+		}
+		// the closed flag: the bool field Close sets to true
+		var closedF *types.Var
+		eachInstr(cl, func(i ssa.Instruction) {
+			if st, ok := i.(*ssa.Store); ok {
+				if c, ok := st.Val.(*ssa.Const); ok && c.Value != nil && isBool(c.Type()) && c.Value.String() == "true" {
+					if fv := fieldVarOfAddr(st.Addr); fv != nil {
+						closedF = fv
+					}
+				}
+			}
+		})
+		if closedF == nil || len(gf) == 0 {
+			undecided("bitstream.%s: closed flag or counter fields not identified", side.typ)
+		}
+		isTest := func(i ssa.Instruction) bool {
+			u, ok := i.(*ssa.UnOp)
+			return ok && u.Op == token.MUL && fieldVarOfLoad(u) == closedF
+		}
+		tcMemo := map[*ssa.Function]bool{}
+		testCapable := func(h *ssa.Function) bool {
+			if v, ok := tcMemo[h]; ok {
+				return v
+			}
+			res := false
+			for _, g := range append([]*ssa.Function{h}, p.helperClosure(h)...) {
+				eachInstr(g, func(i ssa.Instruction) {
+					if isTest(i) {
+						res = true
+					}
+				})
+			}
+			tcMemo[h] = res
+			return res
+		}
+		type outcome struct{ pending ssa.Instruction }
+		type memoKey struct {
+			f       *ssa.Function
+			pending bool
+		}
+		memo := map[memoKey][]outcome{}
+		inProgress := map[memoKey]bool{}
+		type viol struct{ store, test ssa.Instruction }
+		var viols []viol
+		var explore func(f *ssa.Function, pending ssa.Instruction, depth int) []outcome
+		explore = func(f *ssa.Function, pending ssa.Instruction, depth int) []outcome {
+			key := memoKey{f, pending != nil}
+			if o, ok := memo[key]; ok {
+				return o
+			}
+			if inProgress[key] || depth > 6 {
+				return []outcome{{pending}}
+			}
+			inProgress[key] = true
+			defer delete(inProgress, key)
+			type st struct {
+				b   *ssa.BasicBlock
+				idx int
+				pen ssa.Instruction
+			}
+			seen := map[[2]any]bool{}
+			var outs []outcome
+			work := []st{{f.Blocks[0], 0, pending}}
+			for len(work) > 0 {
+				s := work[len(work)-1]
+				work = work[:len(work)-1]
+				pen := s.pen
+				ended := false
+				for k := s.idx; k < len(s.b.Instrs) && !ended; k++ {
+					in := s.b.Instrs[k]
+					switch x := in.(type) {
+					case *ssa.Store:
+						if fv := fieldVarOfAddr(x.Addr); fv != nil && gf[fv] && pen == nil {
+							pen = x
+						}
+					case *ssa.Panic:
+						ended = true
+					case *ssa.Return:
+						outs = append(outs, outcome{pen})
+						ended = true
+					default:
+						if isTest(in) {
+							if pen != nil {
+								viols = append(viols, viol{pen, in})
+							}
+							ended = true // tested: whatever follows is an accepted operation
+							break
+						}
+						if c := callOf(in); c != nil && !c.IsInvoke() {
+							if h := c.StaticCallee(); h != nil && h.Blocks != nil && h.Signature.Recv() != nil && namedOf(h.Signature.Recv().Type()) == recvT {
+								res := explore(h, pen, depth+1)
+								if len(res) == 0 || testCapable(h) {
+									// the callee always tests (or panics), or it is one of the routines the closed
+									// sentinel sends control to: on a closed stream its own test comes first, so what
+									// the caller does after it returned belongs to an accepted operation
+									ended = true
+									break
+								}
+								// a store made by a callee that returned normally belongs to a completed sub-operation
+								// (on a closed stream the callee's own way to the test comes first): only the caller's own
+								// pending store is carried on
+								_ = res
+							}
+						}
+					}
+				}
+				if ended {
+					continue
+				}
+				for _, sc := range s.b.Succs {
+					k2 := [2]any{sc, pen != nil}
+					if !seen[k2] {
+						seen[k2] = true
+						work = append(work, st{sc, 0, pen})
+					}
+				}
+			}
+			memo[key] = outs
+			return outs
+		}
+		for _, on := range side.ops {
+			op := p.MethodOpt("bitstream", side.typ, on)
+			if op == nil || op.Blocks == nil {
+				continue
+			}
+			nop++
+			viols = nil
+			memo = map[memoKey][]outcome{}
+			explore(op, nil, 0)
+			key := fmt.Sprintf("(*bitstream.%s).%s", side.typ, on)
+			if len(viols) > 0 {
+				v := viols[0]
+				r.fail(key+"#refused-after-store", p.IPos(v.store), fmt.Sprintf("%s stores the counter field %s (at %s, in %s) before the closed state is looked at (at %s): an operation refused by a closed stream has already moved %s() – the counter no longer equals the sum of the accepted operations, and the moved cursor makes the next refused operation fail differently", on, fieldVarOfAddr(v.store.(*ssa.Store).Addr).Name(), p.IPos(v.store), p.FnName(v.store.Parent()), p.IPos(v.test), side.accessor))
+			} else {
+				r.ok(key+": no counter field is stored before the closed state is tested", p.Pos(op.Pos()))
+			}
+		}
+	}
+	r.floor(6, nop, "bitstream operations")
+}
